@@ -77,6 +77,15 @@ def gen(chk):
         st = G.rand_stack(rng, rng.choice([0, 1, 3]))
         sessions.append({"kind": "script", "argv": ["0x" + scr.hex()] + ["0x" + x.hex() for x in st],
                          "case": "script id=%%s scr=%s st=%s flags=%d sv=0 z=0 ls=1 cmds=%%s" % (G.hexs(scr), G.hexlist(st), STD), "walk": walk()})
+    # a pay-to-script-hash shaped script given directly, the redeem script being the LAST of several stack arguments (the top of the stack)
+    import hashlib
+    for _ in range(4 if q else 60):
+        redeem = G.rand_script(rng, rng.choice([1, 2, 4]))
+        h = hashlib.new("ripemd160", hashlib.sha256(redeem).digest()).digest()
+        scr = bytes([0xa9, 20]) + h + b"\x87"
+        st = [G.rand_script(rng, rng.choice([1, 2, 3])) for _ in range(rng.randrange(0, 3))] + [redeem]
+        sessions.append({"kind": "script-p2sh", "argv": ["0x" + scr.hex()] + ["0x" + x.hex() for x in st],
+                         "case": "script id=%%s scr=%s st=%s flags=%d sv=0 z=0 ls=1 cmds=%%s" % (G.hexs(scr), G.hexlist(st), STD), "walk": ["s"] * 8})
     kinds = ["p2pk", "p2pkh", "multisig", "p2sh", "p2sh-codesep", "p2wpkh", "p2sh-p2wpkh", "p2wsh", "p2sh-p2wsh", "p2wsh-codesep", "p2tr-key", "p2tr-script", "p2tr-csa", "p2tr-codesep",
              "p2tr-cs-unexec", "p2tr-weight"]
     for k in kinds:
